@@ -148,6 +148,11 @@ def run(P, R, tier):
     from ..engines import dimrun
     n, rets = dimrun.route(P, R, ["wccn.fit", "wccn.transform", "white.fit", "white.transform"], rules=["DIM.", "EXT."], where_prefix=["wccn:", "whitening:"])
     R.floor("DIM/EXT obligations (WCCN / whitening)", n, 8)
+    from ..engines import dtype as _dt14
+    n_dt14 = 0
+    for k_ in ("wccn:WCCN.fit", "whitening:Whitening.fit"):
+        n_dt14 += _dt14.check_function(P, R, k_, raw_params=(P.func(k_).value_params[0],))
+    R.floor("DTYPE.raw sites (linear transforms)", n_dt14, 1)
     # ---- WCCN -----------------------------------------------------------------------
     f, du = check_fit_common(P, R, "wccn:WCCN.fit", inv_of=[(("X",), "the data"), (("y",), "the labels"), (("len",), "the number of classes scales the scatter")])
     n, colls, loops, conts = idx.check_label_indexing(P, R, f, contract_0_k=False)
@@ -243,3 +248,4 @@ def run(P, R, tier):
 
 EXPLANATION += " Also: (AFFINE) the fitted divisor is 1 and WCCN's offset 0, Whitening.fit stores the training mean; (POL.wccn-scale) the scatter is scaled by 1 / K and no other literal; (DTYPE.raw)."
 EXPLANATION += ' (IDX.select, generalised by GROUP) class members selected by label equality or by a sort-and-split grouping of the labels (G1-G4).'
+EXPLANATION += " (DTYPE.raw) no buffer shaped after the training data receives floating-point class means (integer-typed data would truncate them) and no product of the data is taken in the data's dtype; (IDX.I1) a sequence built over the classes is read by position only under the same walk of the same collection (set order and sorted order are different orders)."
